@@ -14,7 +14,20 @@ class Injector:
         self.block = -1
         self.open = []          # stack of [block index, owner frame, call count, lineno of the with statement]
         self.census = []        # per block: [owner function, with-line, number of call points]
+        self.entries = []       # per block: [line of the first statement of the block body, injectable (a simple statement)] or None
         self.fired = []
+        self._simple = None
+
+    def simple(self, filename):
+        """line -> True for lines on which a simple statement starts"""
+        if self._simple is None:
+            import ast
+            tree = ast.parse(open(filename).read())
+            self._simple = {}
+            for node in ast.walk(tree):
+                if isinstance(node, ast.stmt):
+                    self._simple[node.lineno] = isinstance(node, (ast.Assign, ast.AugAssign, ast.AnnAssign, ast.Expr))
+        return self._simple
 
     def install(self, simp):
         inj = self
@@ -33,15 +46,35 @@ class Injector:
             inj.block += 1
             rec = [inj.block, owner, 0, owner.f_lineno if owner is not None else -1]
             inj.census.append([owner.f_code.co_name if owner is not None else None, rec[3], 0, []])
+            inj.entries.append(None)
             inj.open.append(rec)
             old = sys.gettrace()
+            old_local = owner.f_trace if owner is not None else None
             if owner is not None:
                 sys.settrace(tracer)
+                # call index 0 = the block entry: the first statement of the block body (a SIGALRM can fire before anything in the block has
+                # run); injected only when that statement is a simple one (an exception raised from the line event of a compound-statement
+                # header bypasses the handlers in CPython 3.12, DESIGN.md 4.4)
+                state = {"seen": False}
+
+                def line_tracer(frame, event, arg, rec=rec, state=state):
+                    if event == "line" and not state["seen"] and frame is rec[1]:
+                        state["seen"] = True
+                        ok = inj.simple(frame.f_code.co_filename).get(frame.f_lineno, False)
+                        inj.entries[rec[0]] = [frame.f_lineno, bool(ok)]
+                        if ok and (rec[0], 0) in inj.targets:
+                            inj.fired.append([rec[0], 0, "<block entry>", frame.f_lineno])
+                            raise exc("Timed out (injected)")
+                    return line_tracer
+                owner.f_trace = line_tracer
+                owner.f_trace_lines = True
             try:
                 with orig(seconds):
                     yield
             finally:
                 sys.settrace(old)
+                if owner is not None:
+                    owner.f_trace = old_local
                 inj.open.pop()
 
         def tracer(frame, event, arg):
@@ -75,7 +108,7 @@ def gen_with_faults(runname, n, basis, targets, out_path):
         tb = traceback.format_exc()
         buf.write("\n" + tb)
     with open(out_path, "w") as f:
-        json.dump({"status": status, "census": inj.census, "fired": inj.fired, "log": buf.getvalue()[-3000:]}, f)
+        json.dump({"status": status, "census": inj.census, "entries": inj.entries, "fired": inj.fired, "log": buf.getvalue()[-3000:]}, f)
 
 
 def gen_many(jobs):
